@@ -44,6 +44,9 @@ def showReqs (l : List Req) : String := if l.isEmpty then "-" else ", ".intercal
 /-- run one op; returns the new state and the printed outcome -/
 def runOp (st : State) (t : String) : Option (State × String) :=
   match t.splitOn "|" with
+  | ["P"] =>
+    -- the application told the client to assume pre-authentication (a setting, made before the first request)
+    pure ({ st with assumePA := true }, "- => ok left=0")
   | ["L", now, replies] => do
     let now ← parseInt now; let replies ← parseReplies replies
     let (r, ok) := login { st, replies } now
@@ -90,6 +93,9 @@ def handle (op : String) (args : List String) : Option String :=
     let e ← parseExpect opts cname crealm realm sname now life rlife etypes
     let et ← Crypto.parseEt et; let key ← parseHex key; let tkt ← parseHex tkt; let req ← parseHex req
     pure (showIssues (Krb.ReqCheck.checkTGS Crypto.P e et key tkt req))
+  | "cl.shape", [kind, req] => do
+    let req ← parseHex req
+    pure (showIssues (Krb.ReqCheck.shape (kind == "TGSReq") req))
   | "cl.decide", [now, start, end_, rt] => do
     let now ← parseInt now; let start ← parseInt start; let end_ ← parseInt end_; let rt ← parseOptInt rt
     let d := cacheDecision now { id := 0, issuer := [], sname := [], authNs := start, startNs := start, endNs := end_, renewTill := rt }
